@@ -21,6 +21,8 @@ use std::time::Duration;
 #[derive(Clone, Debug, Serialize, Deserialize)]
 pub enum POp {
     AllocBytes { n: u16, payload: u8 },
+    /// alloc_bytes(largest free segment * num / 8 + d), resolved when the operation starts
+    AllocRel { num: u8, d: i8, payload: u8 },
     AllocAligned { ty: u8, n: u16, payload: u8 },
     AllocTyped { ty: u8, payload: u8 },
     AllocOwned { n: u16 },
@@ -238,6 +240,9 @@ pub struct St {
     freed: bool,
     arena_ptrs: Vec<usize>,
     pub unmount_thread: Option<usize>,
+    /// a mark CAS succeeded on a node word that was not reachable from the sentinel at that moment
+    /// (the node had been popped and its header re-written by a thread that is about to re-insert it)
+    aba_mark: Option<String>,
 }
 
 #[derive(Clone)]
@@ -315,12 +320,15 @@ impl St {
         let ops: Vec<String> = u.iter().map(|i| format!("thread {i}: {}", self.last_op[*i])).collect();
         let fl = self.freelist_raw();
         let marked: Vec<(u32, u32, u32)> = fl.iter().copied().filter(|n| n.1 == 0).collect();
-        let sig = if !marked.is_empty() {
+        let sig = if self.aba_mark.is_some() {
+            "stall/aba-mark-of-unlinked-node".to_string()
+        } else if !marked.is_empty() {
             "stall/marked-node-never-unlinked".to_string()
         } else {
             "stall/no-progress".to_string()
         };
-        self.fail(viol!("C07", sig, "every unfinished thread keeps re-reading unchanged words (no write by anyone for > {} scheduling points each): {}; reachable list {:?}", self.lbound, ops.join("; "), fl));
+        let aba = self.aba_mark.clone().map(|a| format!("; earlier: {a}")).unwrap_or_default();
+        self.fail(viol!("C07", sig, "every unfinished thread keeps re-reading unchanged words (no write by anyone for > {} scheduling points each): {}; reachable list {:?}{aba}", self.lbound, ops.join("; "), fl));
     }
     /// raw bounded walk over the list as it is reachable from the sentinel (only valid for the unified layout)
     fn freelist_raw(&self) -> Vec<(u32, u32, u32)> {
@@ -402,10 +410,19 @@ fn sched_point(sh: &Shared, t: usize) {
     }
 }
 
+fn trace_on() -> bool {
+    static T: std::sync::OnceLock<bool> = std::sync::OnceLock::new();
+    *T.get_or_init(|| std::env::var("RV_TRACE").is_ok())
+}
+
 fn after_event(sh: &Shared, t: usize, e: &Event) {
     let mut st = lock(sh);
     let in_arena = e.addr >= st.base && e.addr < st.base + st.cap;
     let off = e.addr.wrapping_sub(st.base);
+    if trace_on() {
+        let loc = if in_arena { format!("@{off}") } else if e.addr == st.refs_addr { "refs".to_string() } else { format!("hdr+{}", e.addr & 0xff) };
+        eprintln!("[{:>5}] t{t} {:?}{} {loc} read={:#x} new={:#x} wrote={} ({})", st.steps, e.kind, if e.weak { "w" } else { "" }, e.old, e.new, e.wrote, st.last_op[t]);
+    }
     let width = e.width as usize;
     let changed = e.wrote && e.old != e.new;
     if changed {
@@ -426,6 +443,13 @@ fn after_event(sh: &Shared, t: usize, e: &Event) {
                     st.force = Some((t, st.mark_preempt as u32));
                 }
                 st.classes.insert("mark-cas");
+                if st.aba_mark.is_none() && !st.freed {
+                    let reach = st.freelist_raw();
+                    if !reach.iter().any(|n| n.0 as usize == off) {
+                        st.aba_mark = Some(format!("thread {t} marked the node at offset {off} (word {:#x}) while it was not linked into the list (reachable: {:?}); doing: {}", e.old, reach, st.last_op[t]));
+                        st.classes.insert("mark-of-unlinked-node");
+                    }
+                }
             }
             if (e.old >> 32) == 0 {
                 st.saw_marked = true;
@@ -649,9 +673,14 @@ fn run_prog(sh: &Arc<Shared>, t: usize, arena: &'static Arena, prog: &[POp], clo
     for (pi, op) in prog.iter().enumerate() {
         set_op(format!("op {pi} {op:?}"));
         match op {
-            POp::AllocBytes { .. } | POp::AllocAligned { .. } | POp::AllocTyped { .. } | POp::AllocOwned { .. } => {
+            POp::AllocBytes { .. } | POp::AllocRel { .. } | POp::AllocAligned { .. } | POp::AllocTyped { .. } | POp::AllocOwned { .. } => {
                 let (r, payload, is_bytes, owned) = match op {
                     POp::AllocBytes { n, payload } => (alloc_bytes(arena, *n as u32, false), *payload, true, false),
+                    POp::AllocRel { num, d, payload } => {
+                        let head = arena.verif_freelist(64).nodes.iter().map(|n| n.1).max().unwrap_or(64) as i64;
+                        let n = (head * (*num as i64 % 9) / 8 + *d as i64).clamp(1, 4096) as u32;
+                        (alloc_bytes(arena, n, false), *payload, true, false)
+                    }
                     POp::AllocOwned { n } => (alloc_bytes(arena, *n as u32, true), 0, true, true),
                     POp::AllocAligned { ty, n, payload } => (alloc_aligned(arena, *ty as usize % TYPES.len(), *n as u32, false), *payload, false, false),
                     POp::AllocTyped { ty, payload } => {
@@ -994,6 +1023,7 @@ fn run_case_b_inner(case: &CaseB, o: &OptsB) -> RunB {
         freed: false,
         arena_ptrs,
         unmount_thread: None,
+        aba_mark: None,
     };
     let sh = Arc::new(Shared { m: Mutex::new(st), cv: Condvar::new() });
     // main's existing writes (pre-history payloads) happen-before the threads: spawn edge
